@@ -189,11 +189,11 @@ def g_routing(R, tier):
     def mk_def():
         return ast.FunctionDef(name="f", args=ast.arguments(posonlyargs=[], args=[ast.arg(arg="a", annotation=CL.src("arg_annotation"))], kwonlyargs=[],
                                                             kw_defaults=[], defaults=[CL.src("default")]),
-                               body=[], decorator_list=[CL.src("decorator_list")], returns=CL.src("returns"), lineno=7, col_offset=0)
+                               body=CL.fn_body(), decorator_list=[CL.src("decorator_list")], returns=CL.src("returns"), lineno=7, col_offset=0)
     case("FunctionDef", "PendingFunctionDef", mk_def, lambda s: setattr(s, "converted_body", []))
 
     def mk_cls():
-        return ast.ClassDef(name="C", bases=[CL.src("bases")], keywords=[ast.keyword(arg="k", value=CL.src("keyword_value"))], body=[],
+        return ast.ClassDef(name="C", bases=[CL.src("bases")], keywords=[ast.keyword(arg="k", value=CL.src("keyword_value"))], body=CL.fn_body(),
                             decorator_list=[CL.src("decorator_list")], lineno=3, col_offset=0)
     case("ClassDef", "PendingClassDef", mk_cls, lambda s: setattr(s, "converted_body", []))
     for name, (cls_name, mk, extra, children) in cases.items():
